@@ -300,6 +300,11 @@ func checkC12(c *Ctx, n int) {
 				g.richify(cs.Build[bi].Struct)
 			}
 		}
+		sameField := false
+		if g.chance(0.1) && cs.Build[0].Struct != nil {
+			// an option of a nested group under the field name of an option of the enclosing group
+			sameField = g.collideFieldName(cs.Build[0].Struct)
+		}
 		if g.chance(0.04) && cs.Build[0].Struct != nil {
 			// two sections of one name (D17)
 			collideGroupName(cs.Build[0].Struct, []string{"application options", "Application Options", "APPLICATION OPTIONS"}[c.Rng.Intn(3)])
@@ -311,6 +316,9 @@ func checkC12(c *Ctx, n int) {
 		clash := sectionNamesClash(realA)
 		if clash {
 			c.Class("c12/two-sections-share-a-name")
+		}
+		if sameField {
+			c.Class("c12/nested-option-under-the-field-name-of-an-outer-one")
 		}
 		// commands must not be required, or an argument-less parse fails for a reason outside C12
 		for _, cmd := range realA.commandsPreorder() {
@@ -553,9 +561,9 @@ func checkC14(c *Ctx, n int) {
 			va, vb := optionValues(ra.Impl, "INI ", 0), optionValues(rb.Impl, "INI ", 0)
 			ref := rb.Real.optRef[name]
 			in := map[string]interface{}{"clean_text": clean, "long_line_for": name, "long_line_bytes": len(long), "value_starts": long[:24], "value_ends": long[len(long)-24:]}
-			ok := strings.Fields(ia + " x")[1] != "ok" || strings.Fields(ib + " x")[1] == "ok"
+			ok := iniKind(ia) != "ok" || iniKind(ib) == "ok"
 			got := decodeLine(ib)
-			if ok && strings.Fields(ia + " x")[1] == "ok" {
+			if ok && iniKind(ia) == "ok" {
 				if vb[ref] != showVal("str", reflect.ValueOf(long)) {
 					ok = false
 					dv := decodeLine(vb[ref])
@@ -622,7 +630,7 @@ func checkC14(c *Ctx, n int) {
 			c.Class("c14/ignore-unknown-pair")
 			c.Distinct(b.Description)
 			ia, ib := firstLine(ra.Impl, "INI "), firstLine(rb.Impl, "INI ")
-			same := strings.Fields(ia + " x")[1] == strings.Fields(ib + " x")[1]
+			same := iniKind(ia) == iniKind(ib) && iniKind(ia) != ""
 			va, vb := optionValues(ra.Impl, "INI ", 0), optionValues(rb.Impl, "INI ", 0)
 			diff := ""
 			for k, v := range va {
@@ -693,8 +701,7 @@ func checkC14(c *Ctx, n int) {
 			c.Class("c14/noise-pair")
 			c.Distinct(noisyText)
 			ia, ib := firstLine(ra.Impl, "INI "), firstLine(rb.Impl, "INI ")
-			ka, kb := strings.Fields(ia+" x"), strings.Fields(ib+" x")
-			same := ka[1] == kb[1] // ok / ini / flags
+			same := iniKind(ia) == iniKind(ib) && iniKind(ia) != "" // ok / ini / flags
 			va, vb := optionValues(ra.Impl, "INI ", 0), optionValues(rb.Impl, "INI ", 0)
 			for k, v := range va {
 				if vb[k] != v {
@@ -756,7 +763,7 @@ func checkC14(c *Ctx, n int) {
 				c.Class("c14/located-fault")
 				c.Distinct(text)
 				ini := firstLine(cr.Impl, "INI ")
-				ws := strings.Fields(ini + " x x x")
+				ws := strings.Fields(ini + " x x x x")
 				ok := ws[1] == "ini" && ws[3] == strconv.Itoa(at+1)
 				in := map[string]interface{}{"text": text, "faulty_line": at + 1, "fault": bad}
 				if !ok {
@@ -766,4 +773,14 @@ func checkC14(c *Ctx, n int) {
 			})
 		}
 	}
+}
+
+// iniKind: "ok", "ini", "flags" ... from an "INI <kind> ..." observation line ("" when there is none:
+// the reader did not return)
+func iniKind(line string) string {
+	ws := strings.Fields(line)
+	if len(ws) < 2 {
+		return ""
+	}
+	return ws[1]
 }
